@@ -298,6 +298,71 @@ theorem c10_queue_refines_execq (cfg : Cfg α) (hsync : cfg.sync = false) (acts 
     · simp
   exact (List.Sublist.nodup hpfx.sublist hn)
 
+/-- **Blocking modes (the other half of the queue clause): every completed request is accepted and run, in request
+    order, one at a time.**  With `cfg.sync` (`parser.Execute` = `SyncExecutor`, which calls the job and returns true —
+    there is no `ExecQ` to refine) and for EVERY action sequence: the pending jobs are exactly the requests
+    `fin, fin+1, …, next-1` — nothing the parser completed was refused or lost, closed connection or not —, the handlers
+    entered so far are exactly `0, 1, …, fin-1` plus request `fin` while a job is running (each once, in order, never two
+    at a time), and a running job belongs to a request that was parsed.  Quantifies over all schedules, i.e. over more
+    interleavings than the inline executor has (see `c10_sync_inline` for that discipline). -/
+theorem c10_queue_sync (cfg : Cfg α) (hsync : cfg.sync = true) (acts : List Act) :
+    let s := run cfg init acts
+    s.queue = List.range' s.fin (s.next - s.fin) ∧ s.fin ≤ s.next ∧
+      s.handled = List.range (s.fin + (if s.cur.isSome then 1 else 0)) ∧
+      (s.cur.isSome = true → s.fin < s.next) := by
+  intro s
+  have hi : Inv cfg s := inv_run acts (inv_init cfg)
+  have hacc := hi.acc_eq (Or.inr hsync)
+  have hlen : s.queue.length = s.next - s.fin := by omega
+  refine ⟨by rw [← hlen]; exact hi.q_range, by omega, hi.handled, ?_⟩
+  intro hc
+  cases hcur : s.cur with
+  | none => rw [hcur] at hc; cases hc
+  | some rem =>
+    obtain ⟨hne, _⟩ := hi.cur_some rem hcur
+    have : s.queue.length ≠ 0 := by
+      intro h0; exact hne (List.eq_nil_of_length_eq_zero h0)
+    omega
+
+/-- **Blocking modes, inline discipline**: the goroutine that parses is the one that runs the job, so a request is
+    completed only while no job is pending (`inlineSched`: every `parse` of the schedule finds the queue empty).  Then
+    `Pipeline`'s queue degenerates to a call: it never holds more than the one job being run, the parser is never more
+    than one request ahead of the finished jobs, and the handlers entered are `0 … fin-1` plus the running one —
+    acceptance order = run order = request order, with no queueing at all. -/
+theorem c10_sync_inline (cfg : Cfg α) (hsync : cfg.sync = true) (acts : List Act)
+    (hin : inlineSched cfg init acts) :
+    let s := run cfg init acts
+    s.queue.length ≤ 1 ∧ s.next ≤ s.fin + 1 ∧ s.queue = (if s.next = s.fin then [] else [s.fin]) ∧
+      s.handled = List.range (s.fin + (if s.cur.isSome then 1 else 0)) := by
+  intro s
+  have hl : s.queue.length ≤ 1 := inline_queue_len cfg acts init hin (by simp [init])
+  obtain ⟨hq, hle, hh, _⟩ := c10_queue_sync cfg hsync acts
+  have hq : s.queue = List.range' s.fin (s.next - s.fin) := hq
+  have hle : s.fin ≤ s.next := hle
+  have hlen : s.next - s.fin ≤ 1 := by
+    have := congrArg List.length hq
+    simp at this
+    omega
+  refine ⟨hl, by omega, ?_, hh⟩
+  by_cases he : s.next = s.fin
+  · rw [hq, if_pos he, he]; simp
+  · have h1 : s.next - s.fin = 1 := by omega
+    rw [hq, if_neg he, h1]; rfl
+
+/-- the driver's completion rounds on a two-request history with one write each -/
+def inlineWitness : Cfg Nat :=
+  { reqs := [{ major := 1, minor := 1, connVals := [], pieces := [[1, 2]] },
+             { major := 1, minor := 1, connVals := [], pieces := [[3]] }], sync := true }
+
+/-- `c10_sync_inline` is not vacuous: the rounds `pipedrv` appends (`completion`) respect the inline discipline on a
+    history whose responses are one conn write each, and run both handlers in order. -/
+theorem c10_sync_inline_witness :
+    inlineSched inlineWitness init (completion 2) ∧
+      (run inlineWitness init (completion 2)).handled = [0, 1] ∧
+      (run inlineWitness init (completion 2)).wire = [1, 2, 3] := by
+  refine ⟨?_, by decide, by decide⟩
+  simp [inlineSched, completion, round, step, init, inlineWitness, Req.close, closeDecision, scanConn]
+
 /-- **Nothing is written after the close** (whoever closed): from a closed state on, no step changes
     the wire, and the connection stays closed. -/
 theorem c10_nothing_after_close (cfg : Cfg α) (acts : List Act) :
